@@ -151,6 +151,25 @@ func (seg *Segment) IsAmbiguous(s2 *Segment) bool {
 		(seg.Endpoint == s2.Endpoint && seg.Type == s2.Type && seg.rule == s2.rule && seg.Suffix == s2.Suffix)
 }
 
+// IsAmbiguousPrefix 判断 seg 与 s2 的起始部分是否存在歧义
+//
+// 与 [Segment.IsAmbiguous] 的区别在于：seg 可以是节点被拆分之后的前半段，
+// 此时 seg.Suffix 只是 s2.Suffix 的前缀。
+// 返回值 l 表示 s2.Value 中与 seg 相对应部分的长度。
+func (seg *Segment) IsAmbiguousPrefix(s2 *Segment) (l int, ok bool) {
+	if seg.Type == String || seg.Type != s2.Type || seg.rule != s2.rule {
+		return 0, false
+	}
+	if seg.ignoreName == s2.ignoreName && seg.Name == s2.Name { // 完全相同，不算歧义。
+		return 0, false
+	}
+
+	if seg.Endpoint != s2.Endpoint || !strings.HasPrefix(s2.Suffix, seg.Suffix) {
+		return 0, false
+	}
+	return len(s2.Value) - len(s2.Suffix) + len(seg.Suffix), true
+}
+
 func (seg *Segment) AmbiguousLen() int16 {
 	return seg.ambiguousLength + int16(len(seg.Name))
 }
